@@ -505,9 +505,22 @@ func emitSMTDocShapes(out *Out, r *Rng, nclaims int) {
 	}
 	for _, info := range infos {
 		sh := randSMTDocShape(r, p.IssuerData.ID, stHash.Hex(), info)
-		c := Case{Op: "none", Tags: []string{"did-document", "info:" + info, fmt.Sprintf("genesis:%v", isGen), fmt.Sprintf("vms:%d", len(sh.types))}, NT: true}
+		// the model is given the document's verification methods as they stand and picks the state entry itself
+		// (Lean: Gsp.Resolve.stateInfo / resolvedOf; theorems Props.C08.state_entry_is_first_of_its_type, other_methods_irrelevant)
+		vmsJ := make([]any, len(sh.types))
+		for i := range sh.types {
+			vmsJ[i] = J{"tp": sh.types[i], "published": sh.published[i]}
+		}
+		c := Case{Op: "verify.smtp", Tags: []string{"did-document", "info:" + info, fmt.Sprintf("genesis:%v", isGen), fmt.Sprintf("vms:%d", len(sh.types))}, NT: true}
 		c.In = J{"didDocument": J{"info": info, "pos": sh.pos, "types": sh.types, "published": sh.published, "viaJSON": sh.viaJSON},
-			"genesis": gen, "issuer": J{"state": treeStateJ(st.Value, st.ClaimsTreeRoot, st.RevocationTreeRoot, st.RootOfRoots)}, "mtp": proofJSON(p.MTP)}
+			"genesis": gen, "issuer": J{"didOk": didParses(p.IssuerData.ID), "state": treeStateJ(st.Value, st.ClaimsTreeRoot, st.RevocationTreeRoot, st.RootOfRoots)}, "mtp": proofJSON(p.MTP),
+			"resolved": J{"vms": vmsJ}}
+		if pc, cerr := p.GetCoreClaim(); cerr == nil {
+			hi, hv, _ := pc.HiHv()
+			c.In.(J)["hi"], c.In.(J)["hv"] = hi.String(), hv.String()
+		} else {
+			c.Op = "none"
+		}
 		setCurrent(out, &c)
 		var asked []string
 		res := didResolver{f: func(did *w3c.DID) (verifiable.DIDDocument, error) {
